@@ -114,8 +114,9 @@ def main():
                     rec["outcome"] = "killed-by-" + prop
                     break
                 if rc2 not in (0, 1):
-                    rec["outcome"] = "check-error-" + prop
-                    break
+                    # undecided under this check (for example every run cut short by another property's
+                    # violation): noted, the following checks still run
+                    rec.setdefault("undecided", []).append(prop)
         rec["seconds"] = round(time.time() - t0, 1)
         with open(res_path, "a") as fh:
             fh.write(json.dumps(rec) + "\n")
